@@ -280,6 +280,31 @@ for k, v in ADDED9.items():
     else:
         _late[k] = _late.get(k, "") + v
 
+ADDED10 = {
+ "C01": " Wave 9: R-REPKIND (a group loop merges only with a child loop of its own laziness), R-ENUMFULL (disjointness by enumeration looks at every member).",
+ "C02": " Wave 9: R-RESETALL (a recycled Match is cleared unconditionally).",
+ "C03": " Wave 9: R-BYTECAND (a byte candidate is never len(input) minus a pattern length).",
+ "C04": " Wave 9: R-MONOFLAG (the all-branches-fixed flag of the alternation analysis can only be lowered).",
+ "C05": " Wave 9: R-REPKIND, R-ENUMFULL, R-EOLNL also for rows in a separate if.",
+ "C06": " Wave 9: R-REPKIND, R-SPACEARGS, R-OFFTABLE (ReadRune sizes are used).",
+ "C08": " Wave 9: R-OFFTABLE (ReadRune sizes are used).",
+ "C09": " Wave 9: R-ROOMLTR (room-to-the-right tests only for left-to-right searches), R-COUNTDEC (the remaining-match count only counts down).",
+ "C10": " Wave 9: R-CRAWLGUARD.",
+ "C11": " Wave 9: R-FRESHRE (no package-level variable can hold a *Regexp).",
+ "C12": " Wave 9: R-RESETALL, R-CRAWLGUARD (a push onto the crawl stack makes room for itself), R-TAKEALL.",
+ "C13": " Wave 9: R-TRACKGROW (the backtracking stack grows only through the limit-aware routine), R-CRAWLGUARD, R-TAKEALL (nothing of the old receiver survives UnmarshalText).",
+ "C14": " Wave 9: R-FRESHRE, R-TIMEOUTSRC (the runner uses the timeout it was called with).",
+ "C15": " Wave 9: R-ROOMLTR.",
+ "C16": " Wave 9: R-NEGTOGGLE (negation is set, never toggled), R-SPACEARGS.",
+ "C17": " Wave 9: R-DENSEEQ (the direct capture table only without holes), R-TAKEALL.",
+ "C19": " Wave 9: R-ESCFORMS (escape() introduces no unknown escape form).",
+}
+for k, v in ADDED10.items():
+    if k in CLAIMS:
+        CLAIMS[k]["text"] += v
+    else:
+        _late[k] = _late.get(k, "") + v
+
 CLAIMS["C06"] = dict(
    technique="static analysis: method-set / signature comparison on go/types against the standard library's *regexp.Regexp, SSA unit taint (rune positions vs byte offsets) over package compat, guard dominance on go/cfg for groups without captures, delegation check of the find-all limit, sibling agreement of the parser's dialect predicates",
    text="Decides structural necessary conditions of the adapter returning what Go's regexp returns: every Match*/Find* method of *regexp.Regexp exists on the adapter with an identical signature and is covered by the compile-time witnesses (R-SURFACE); no value computed from Capture.RuneIndex / RuneLength reaches an []int the adapter fills or a bound of a byte slice except through an offset table (R-BYTEUNIT), byte offsets are never compared with rune indexes (R-UNITCMP) and the lazily built offset table is created at the first rune that is not one byte wide (R-LAZYTABLE); a group without captures is reported as -1 pairs / nil / empty and never sliced (R-UNSETPAIR); n == 0 gives nil in every find-all method (R-NZERO); the first empty match is kept and the empty-match-next-to-previous rule is direction-aware (R-PREVINIT, R-DIRFOLD); the RE2 dialect switches of \\w \\d \\s, their forms inside a class and \\b / \\B are taken under the same option predicates (R-DIALECTSIB). It does NOT decide the equality itself: what is matched (leftmost-first vs backtracking semantics, class contents, anchors) is outside this technique.",
